@@ -73,6 +73,9 @@ def generate(tp: Tape, tier: str):
                 child_pre=tp.choice([0, 0, 1, 3]),
                 parent_pre=tp.randint(0, 12) if raw else tp.choice([300, 500, 800]),
                 local_seed=tp.randint(0, 10**6),
+                # receiver's own early history (built while its counters are still in the sender's range, never
+                # combined with the shipped array) and how the later local operands are created
+                early_local=tp.choice([0, 0, 1, 3]), local_src=tp.choice(["asarray", "from_array", "from_array"]),
                 exec=H.exec_cfg_from_tape(tp, kinds=("single", "threads")), sim=H.sim_cfg_from_tape(tp),
                 opt=tp.choice([dict(kind="default"), dict(kind="off")]), allowed_mem=200_000_000,
                 py_seed=tp.randint(0, 10**6), sched_seed=tp.randint(0, 2**62))
@@ -110,8 +113,19 @@ def execute(case, sched=None):
         shipped = run_child(case, scratch)
         with activated(sim), H.quiet(), H.single_job_labels(sim):
             H.reset_globals(case.get("py_seed", 0))
-            H.set_counters(0 if case.get("exact_twin") else case["parent_pre"])
             spec = cubed.Spec(work_dir=os.path.join(scratch, "work"), allowed_mem=case["allowed_mem"], reserved_mem=0)
+            early = []
+            if case.get("early_local") and not case.get("exact_twin"):
+                # unrelated early arrays of the receiver, on the block grids the later local operands will use
+                H.set_counters(0)
+                for vid in case["ship"]:
+                    w = shadow.values[vid]
+                    if w.ndim >= 1 and w.size and w.dtype.kind in "iuf":
+                        for k in range(case["early_local"]):
+                            early.append(cubed.from_array(np.zeros(w.shape, w.dtype) + k,
+                                                          chunks=tuple(max(1, s // 2) for s in w.shape), spec=spec))
+                counters["early_local_arrays"] = len(early)
+            H.set_counters(0 if case.get("exact_twin") else case["parent_pre"])
             twin = None
             if case.get("exact_twin"):
                 # the receiver has built exactly what the sender built: every generated name coincides
@@ -144,7 +158,8 @@ def execute(case, sched=None):
                     continue
                 want = shadow.values[vid]
                 lnp = rng.randint(-3, 6, size=want.shape).astype(want.dtype)
-                lcu = xp.asarray(lnp, chunks=tuple(max(1, s // 2) for s in want.shape) or (), spec=spec)
+                mk_local = cubed.from_array if case.get("local_src") == "from_array" else xp.asarray
+                lcu = mk_local(lnp, chunks=tuple(max(1, s // 2) for s in want.shape) or (), spec=spec)
                 lder = lcu * 2 if want.dtype.kind != "b" else lcu
                 locals_[vid] = (lnp, lcu, lder)
             if twin is None:
@@ -161,6 +176,11 @@ def execute(case, sched=None):
                 lnp, lcu, lder = locals_[vid]
                 local_names = set(lder._plan.dag.nodes) | (set(twin.values[vid]._plan.dag.nodes) if twin and twin.values[vid] is not None else set())
                 collide = bool(set(remote._plan.dag.nodes) & local_names)
+                if collide and not case.get("raw"):
+                    # with the receiver's counters moved far beyond the sender's range no local operand can carry
+                    # a name of the shipped plan: a collision here is not the recorded name-collision finding
+                    counters["unexpected_collisions"] = counters.get("unexpected_collisions", 0) + 1
+                    collide = False
                 try:
                     if case.get("local_first"):
                         # the receiving process has already planned / computed its own (possibly same-named) arrays
